@@ -5,7 +5,7 @@ from props.regcommon import has_f64, RB, entries
 from vlib import parse_pairs
 
 ID = "C11"
-THEOREMS = [("FlatModel.Props.C11", t) for t in ("FC.C11.hit_or_miss", "FC.C11.forgets_on_reset", "FC.C11.only_equal", "FC.C11.last_tracks", "FC.C11.adjacent")]
+THEOREMS = [("FlatModel.Props.C11", t) for t in ("FC.C11.hit_or_miss", "FC.C11.forgets_on_reset", "FC.C11.only_equal", "FC.C11.last_tracks", "FC.C11.adjacent", "FC.C11.last_after_history")]
 LEAN_TARGETS = ["FlatModel.Generated.Covered"]
 PROFILES = {"quick": ["checked", "wrapping"], "thorough": ["checked", "wrapping"], "search": ["checked"]}
 RULE = ("push sequences over 2..3-value domains with runs, alternations, equal-after-clear, equal-after-merge, equal-after-clone, "
